@@ -86,6 +86,10 @@ Join(parts, sep) == JoinFrom(parts, sep, 1)
 V(t, s, n, d, l) == [t |-> t, s |-> s, n |-> n, d |-> d, l |-> l]
 VStr(s)   == V("s", s, 0, 0, <<>>)
 VInt(n)   == V("i", <<>>, n, 0, <<>>)
+\* an integer too long for TLC arithmetic (10..18 digits): carried as its canonical decimal text, compared by text only
+VBig(s)   == V("I", s, 0, 0, <<>>)
+BigIntText(s) == IntTextLong(s) /\ Len(IntBody(s)) <= 18 /\ IntBody(s)[1] # 48
+CanonInt(s) == IF s[1] = 45 THEN <<45>> \o IntBody(s) ELSE IntBody(s)
 VBool(b)  == V("b", <<>>, IF b THEN 1 ELSE 0, 0, <<>>)
 VList(l)  == V("l", <<>>, 0, 0, l)
 VObj(ms)  == V("j", <<>>, 0, 0, ms)
